@@ -29,6 +29,7 @@ type Case struct {
 	Sizes       []int  `json:"sizes"`
 	DataWithEOF bool   `json:"data_with_eof"`
 	BufSize     int    `json:"buf_size,omitempty"` // icc only
+	Seekable    bool   `json:"seekable,omitempty"` // the scheduled source also implements io.Seeker
 }
 
 type iccOutcome struct {
@@ -72,7 +73,12 @@ func check(c Case) (kind, what string, nt bool) {
 		return "", "", nt
 	}
 	ref := ld.Run(c.Target, bytes.NewReader(c.Data))
-	got := ld.Run(c.Target, s)
+	var got ld.Outcome
+	if c.Seekable {
+		got = ld.Run(c.Target, src.Seekable{Source: s})
+	} else {
+		got = ld.Run(c.Target, s)
+	}
 	nt = s.MultiCall || s.ShortCalls > 0
 	if !ld.Same(ref, got) {
 		k := c.Target + "/differs"
@@ -128,6 +134,7 @@ func TestC08(t *testing.T) {
 			}
 			for _, target := range []string{ld.ForFormat(sd.Kind), "auto"} {
 				run(Case{Desc: sd.Name, Data: sd.Data, Target: target, Sizes: sc, DataWithEOF: si%2 == 1})
+				run(Case{Desc: sd.Name, Data: sd.Data, Target: target, Sizes: sc, DataWithEOF: si%2 == 0, Seekable: true})
 			}
 		}
 	}
@@ -197,6 +204,7 @@ func TestC08(t *testing.T) {
 			}
 		}
 		c.DataWithEOF = rapid.Bool().Draw(rt, "dataeof")
+		c.Seekable = rapid.IntRange(0, 2).Draw(rt, "seekable") == 0
 		ev.Eval(1)
 		k, w, nt := check(c)
 		if nt {
